@@ -294,6 +294,15 @@ impl Recv {
             stream
                 .pending_recv
                 .push_back(&mut self.buffer, Event::Headers(message));
+            #[cfg(feature = "verif-hooks")]
+            crate::verif::ev("recv.event", || {
+                vec![
+                    stream.verif_serial,
+                    u32::from(stream.id) as i64,
+                    1,
+                    stream.state.is_recv_end_stream() as i64,
+                ]
+            });
             stream.notify_recv();
 
             // The receive half may have just ended: no further PUSH_PROMISE
@@ -323,6 +332,15 @@ impl Recv {
             stream
                 .pending_recv
                 .push_back(&mut self.buffer, Event::InformationalHeaders(message));
+            #[cfg(feature = "verif-hooks")]
+            crate::verif::ev("recv.event", || {
+                vec![
+                    stream.verif_serial,
+                    u32::from(stream.id) as i64,
+                    2,
+                    stream.state.is_recv_end_stream() as i64,
+                ]
+            });
             stream.notify_recv();
         }
 
@@ -368,6 +386,10 @@ impl Recv {
             let is_open = stream.state.ensure_recv_open()?;
 
             if is_open {
+                #[cfg(feature = "verif-hooks")]
+                crate::verif::ev("stream.wait_push", || {
+                    vec![stream.verif_serial, u32::from(stream.id) as i64]
+                });
                 stream.push_task = Some(cx.waker().clone());
                 Poll::Pending
             } else {
@@ -402,6 +424,10 @@ impl Recv {
                         )));
                     }
 
+                    #[cfg(feature = "verif-hooks")]
+                    crate::verif::ev("stream.wait_recv", || {
+                        vec![stream.verif_serial, u32::from(stream.id) as i64, 1]
+                    });
                     stream.recv_task = Some(cx.waker().clone());
                     return Poll::Pending;
                 }
@@ -442,6 +468,10 @@ impl Recv {
         // No informational response available at the front
         if stream.state.ensure_recv_open()? {
             // Request to get notified once more frames arrive
+            #[cfg(feature = "verif-hooks")]
+            crate::verif::ev("stream.wait_recv", || {
+                vec![stream.verif_serial, u32::from(stream.id) as i64, 2]
+            });
             stream.recv_task = Some(cx.waker().clone());
             Poll::Pending
         } else {
@@ -470,6 +500,15 @@ impl Recv {
         stream
             .pending_recv
             .push_back(&mut self.buffer, Event::Trailers(trailers));
+        #[cfg(feature = "verif-hooks")]
+        crate::verif::ev("recv.event", || {
+            vec![
+                stream.verif_serial,
+                u32::from(stream.id) as i64,
+                3,
+                stream.state.is_recv_end_stream() as i64,
+            ]
+        });
         stream.notify_recv();
         stream.notify_push();
 
@@ -503,6 +542,8 @@ impl Recv {
         debug_assert!(_res.is_ok());
 
         if self.flow.unclaimed_capacity().is_some() {
+            #[cfg(feature = "verif-hooks")]
+            crate::verif::ev("conn.task_wake", || vec![3, task.is_some() as i64]);
             if let Some(task) = task.take() {
                 task.wake();
             }
@@ -555,6 +596,8 @@ impl Recv {
             // Queue the stream for sending the WINDOW_UPDATE frame.
             self.pending_window_updates.push(stream);
 
+            #[cfg(feature = "verif-hooks")]
+            crate::verif::ev("conn.task_wake", || vec![4, task.is_some() as i64]);
             if let Some(task) = task.take() {
                 task.wake();
             }
@@ -658,6 +701,8 @@ impl Recv {
         // enough that we went over the update threshold, then schedule sending
         // a connection WINDOW_UPDATE.
         if self.flow.unclaimed_capacity().is_some() {
+            #[cfg(feature = "verif-hooks")]
+            crate::verif::ev("conn.task_wake", || vec![5, task.is_some() as i64]);
             if let Some(task) = task.take() {
                 task.wake();
             }
@@ -955,6 +1000,15 @@ impl Recv {
 
         // Push the frame onto the recv buffer
         stream.pending_recv.push_back(&mut self.buffer, event);
+        #[cfg(feature = "verif-hooks")]
+        crate::verif::ev("recv.event", || {
+            vec![
+                stream.verif_serial,
+                u32::from(stream.id) as i64,
+                4,
+                stream.state.is_recv_end_stream() as i64,
+            ]
+        });
         stream.notify_recv();
 
         if stream.state.is_recv_end_stream() {
@@ -1074,6 +1128,15 @@ impl Recv {
         stream
             .pending_recv
             .push_back(&mut self.buffer, Event::Headers(Server(req)));
+        #[cfg(feature = "verif-hooks")]
+        crate::verif::ev("recv.event", || {
+            vec![
+                stream.verif_serial,
+                u32::from(stream.id) as i64,
+                5,
+                stream.state.is_recv_end_stream() as i64,
+            ]
+        });
         stream.notify_recv();
         stream.notify_push();
         Ok(())
@@ -1128,6 +1191,10 @@ impl Recv {
         // Notify the stream
         stream.state.recv_reset(frame, stream.is_pending_send);
 
+        #[cfg(feature = "verif-hooks")]
+        let _verif = crate::verif::enter("recv.recv_reset", || {
+            vec![stream.verif_serial, u32::from(stream.id) as i64]
+        });
         stream.notify_send();
         stream.notify_recv();
         stream.notify_push();
@@ -1140,6 +1207,10 @@ impl Recv {
         // Receive an error
         stream.state.handle_error(err);
 
+        #[cfg(feature = "verif-hooks")]
+        let _verif = crate::verif::enter("recv.handle_error", || {
+            vec![stream.verif_serial, u32::from(stream.id) as i64]
+        });
         // If a receiver is waiting, notify it
         stream.notify_send();
         stream.notify_recv();
@@ -1153,6 +1224,10 @@ impl Recv {
 
     pub fn recv_eof(&mut self, stream: &mut Stream) {
         stream.state.recv_eof();
+        #[cfg(feature = "verif-hooks")]
+        let _verif = crate::verif::enter("recv.recv_eof", || {
+            vec![stream.verif_serial, u32::from(stream.id) as i64]
+        });
         stream.notify_send();
         stream.notify_recv();
         stream.notify_push();
@@ -1529,6 +1604,15 @@ impl Recv {
                 // performance concern. It also means we don't have to track
                 // state to see if `poll_trailers` was called before `poll_data`
                 // returned `None`.
+                #[cfg(feature = "verif-hooks")]
+                crate::verif::ev("recv.event", || {
+                    vec![
+                        stream.verif_serial,
+                        u32::from(stream.id) as i64,
+                        6,
+                        stream.state.is_recv_end_stream() as i64,
+                    ]
+                });
                 stream.notify_recv();
 
                 // No more data frames
@@ -1548,6 +1632,10 @@ impl Recv {
             Some(event) => {
                 // Frame is not trailers.. not ready to poll trailers yet.
                 stream.pending_recv.push_front(&mut self.buffer, event);
+                #[cfg(feature = "verif-hooks")]
+                crate::verif::ev("stream.wait_recv", || {
+                    vec![stream.verif_serial, u32::from(stream.id) as i64, 3]
+                });
                 stream.recv_task = Some(cx.waker().clone());
                 Poll::Pending
             }
@@ -1562,6 +1650,10 @@ impl Recv {
     ) -> Poll<Option<Result<T, proto::Error>>> {
         if stream.state.ensure_recv_open()? {
             // Request to get notified once more frames arrive
+            #[cfg(feature = "verif-hooks")]
+            crate::verif::ev("stream.wait_recv", || {
+                vec![stream.verif_serial, u32::from(stream.id) as i64, 4]
+            });
             stream.recv_task = Some(cx.waker().clone());
             Poll::Pending
         } else {
